@@ -114,7 +114,8 @@ class LeafNode(TreeNode):
 
     def __eq__(self, other):
         if isinstance(other, LeafNode):
-            return self.object == other.object
+            # True == 1 and False == 0 in Python, but a boolean and a number are different data
+            return self.object == other.object and isinstance(self.object, bool) == isinstance(other.object, bool)
         else:
             return self.object == other
 
